@@ -1,4 +1,118 @@
-(* placeholder until Proofs/Op*Proofs.v land: keeps the pipeline end-to-end *)
-From Coq Require Import List NArith.
-Require Import GV.Model.OpDec GV.Model.OpVal GV.Model.OpEval.
-Theorem c07_placeholder : True. Proof. exact I. Qed.
+(* Properties/C07.v — Expression decoding and evaluation equal the DWARF stack machine.
+   Only statements (`exact lemma`), non-vacuity examples and pins live here. *)
+From Coq Require Import List NArith ZArith Bool.
+From Coq.Strings Require Import Byte.
+Require Import GV.Base.Res GV.Base.Byt GV.Base.Ints.
+Require Import GV.Model.Leb GV.Model.Prim GV.Model.OpDec GV.Model.OpVal GV.Model.OpEval GV.Spec.StackSpec.
+Require Import GV.Proofs.OpDecProofs GV.Proofs.OpValProofs.
+Import ListNotations.
+Local Open Scope N_scope.
+
+(* ------------------------------------------------------------------------------------------------
+   1. Decoding.  For EVERY opcode byte (all 256), every encoding (address size, format, version,
+   byte order), both build modes and every operand byte string, Operation::parse is the generic
+   table-driven decoder applied to the operand layout that DWARF 5 Table 7.9 (+ GNU/WASM) gives
+   the opcode, followed by the opcode's constructor; opcodes outside the table give
+   InvalidExpression. *)
+Theorem decode_table : forall (dbg : bool) (e : enc) (opc : byte) (bs : list byte),
+  parse_op dbg e (opc :: bs) = generic_decode dbg e opc bs.
+Proof. intros. exact (decode_table_lemma dbg e opc bs). Qed.
+
+(* Decoding never panics (no overflow check can fire, in either build mode) and needs no fuel. *)
+Theorem decode_no_panic : forall (dbg : bool) (e : enc) (bs : list byte),
+  parse_op dbg e bs <> Panic /\ parse_op dbg e bs <> OutOfFuel.
+Proof. exact parse_op_no_panic_lemma. Qed.
+
+(* A successful decode consumes the opcode byte plus a prefix of the rest: the returned reader is a
+   strict suffix of the input (this is what makes OperationIter and the evaluator progress). *)
+Theorem decode_consumes : forall (dbg : bool) (e : enc) (bs : list byte) (o : operation) (rest : list byte),
+  parse_op dbg e bs = Ok (o, rest) -> exists b u, bs = b :: u ++ rest.
+Proof. exact parse_op_consumes. Qed.
+
+(* The result does not depend on the build mode (debug overflow checks vs release wrapping). *)
+Theorem decode_build_mode_independent : forall (e : enc) (bs : list byte),
+  parse_op true e bs = parse_op false e bs.
+Proof. exact parse_op_dbg. Qed.
+
+(* Expression::operations stops: the stated fuel (length + 1) suffices and no step panics. *)
+Theorem operations_terminate : forall (dbg : bool) (e : enc) (bs : list byte),
+  snd (operations dbg e bs) <> Some OutOfFuel /\ snd (operations dbg e bs) <> Some Panic.
+Proof. exact operations_total. Qed.
+
+Example decode_ex_bregx :    (* DW_OP_bregx 300, -2  on a 4-byte big-endian v5 target *)
+  parse_op true (mkEnc 4 false 5 true) [x92; xac; x02; x7e; xaa] = Ok (ORegisterOffset 300 (-2) 0, [xaa]).
+Proof. vm_compute. reflexivity. Qed.
+Example decode_ex_implicit_pointer_v2 :   (* the reference is address-sized in DWARF 2, offset-sized later *)
+  parse_op true (mkEnc 2 true 2 false) [xa0; x34; x12; x05] = Ok (OImplicitPointer 4660 5, []) /\
+  parse_op true (mkEnc 2 false 5 false) [xa0; x34; x12; x00; x00; x05] = Ok (OImplicitPointer 4660 5, []).
+Proof. split; vm_compute; reflexivity. Qed.
+Example decode_ex_piece_overflow :        (* DW_OP_piece with 2^61 bytes: error, not a wrapped size *)
+  parse_op true (mkEnc 8 false 5 false) [x93; x80; x80; x80; x80; x80; x80; x80; x80; x20] = Err EInvalidExpression.
+Proof. vm_compute. reflexivity. Qed.
+
+(* ------------------------------------------------------------------------------------------------
+   2. Value arithmetic.  `canon sz v` is the value v denotes on a target with sz-byte addresses (a
+   generic value is its residue modulo 2^(8 sz)).  For address sizes 1, 2, 4, 8, every fops (IEEE
+   arithmetic is a parameter), all well-formed operands a b: the result of the model of
+   Value::op(a, b, addr_mask), canonicalised, is the DWARF stack machine's op applied to the
+   canonical operands — same value or same error.  Signedness per operation is in Spec/StackSpec.v
+   (div/abs/neg/shra/compare signed, mod/shr unsigned; shifts by >= width give 0 or the sign). *)
+Definition agrees1 (sz : N) (m : value -> N -> res value) (s : value -> res value) : Prop :=
+  forall a, addr_size sz -> wf_value a = true -> cres sz (m a (amask sz)) = s (canon sz a).
+Definition agrees2 (sz : N) (m : value -> value -> N -> res value) (s : value -> value -> res value) : Prop :=
+  forall a b, addr_size sz -> wf_value a = true -> wf_value b = true ->
+    cres sz (m a b (amask sz)) = s (canon sz a) (canon sz b).
+(* shifts: the same, for counts that are canonical when generic (see shift_count_refuted) *)
+Definition agrees_shift (sz : N) (m : value -> value -> N -> res value) (s : value -> value -> res value) : Prop :=
+  forall a b, addr_size sz -> wf_value a = true -> wf_value b = true -> count_ok sz b ->
+    cres sz (m a b (amask sz)) = s (canon sz a) (canon sz b).
+
+Theorem value_ops : forall (F : fops) (sz : N),
+  agrees2 sz (vadd F) (sp_add sz F) /\ agrees2 sz (vsub F) (sp_sub sz F) /\ agrees2 sz (vmul F) (sp_mul sz F) /\
+  agrees2 sz (vdiv F) (sp_div sz F) /\ agrees2 sz vrem (sp_rem sz) /\
+  agrees2 sz (vand F) sp_and /\ agrees2 sz (vor F) sp_or /\ agrees2 sz (vxor F) sp_xor /\
+  agrees1 sz (vnot F) (sp_not sz) /\ agrees1 sz vneg (sp_neg sz) /\ agrees1 sz vabs (sp_abs sz) /\
+  agrees2 sz veq (sp_eq sz) /\ agrees2 sz vge (sp_ge sz) /\ agrees2 sz vgt (sp_gt sz) /\
+  agrees2 sz vle (sp_le sz) /\ agrees2 sz vlt (sp_lt sz) /\ agrees2 sz vne (sp_ne sz) /\
+  agrees_shift sz vshl (sp_shl sz) /\ agrees_shift sz vshr (sp_shr sz) /\ agrees_shift sz vshra (sp_shra sz) /\
+  (forall a t, addr_size sz -> wf_value a = true -> cres sz (convert F a t (amask sz)) = sp_convert sz F (canon sz a) t) /\
+  (forall a t, addr_size sz -> wf_value a = true -> cres sz (reinterpret a t (amask sz)) = sp_reinterpret sz (canon sz a) t).
+Proof.
+  intros F sz. unfold agrees1, agrees2, agrees_shift.
+  repeat split; intros.
+  - now apply vadd_spec. - now apply vsub_spec. - now apply vmul_spec. - now apply vdiv_spec.
+  - now apply vrem_spec. - now apply vand_spec. - now apply vor_spec. - now apply vxor_spec.
+  - now apply vnot_spec. - now apply vneg_spec. - now apply vabs_spec.
+  - now apply veq_spec. - now apply vge_spec. - now apply vgt_spec. - now apply vle_spec.
+  - now apply vlt_spec. - now apply vne_spec.
+  - now apply vshl_spec. - now apply vshr_spec. - now apply vshra_spec.
+  - now apply convert_spec. - now apply reinterpret_spec.
+Qed.
+
+(* "Generic values compared modulo the address size" FAILS for the count operand of shl/shr/shra:
+   Value::shift_length takes the raw 64-bit container.  On a 4-byte target the generic count
+   2^32+1 denotes 1; the stack machine gives 1 << 1 = 2, gimli gives 0.  (known_findings.txt) *)
+Theorem shift_count_refuted :
+  exists (sz : N) (a b : value), addr_size sz /\ wf_value a = true /\ wf_value b = true /\
+    cres sz (vshl a b (amask sz)) <> sp_shl sz (canon sz a) (canon sz b).
+Proof.
+  exists 4, (mkV TGeneric 1), (mkV TGeneric 4294967297).
+  destruct shift_count_witness as [H1 H2]. repeat split; try (right; right; left; reflexivity).
+  rewrite H1, H2. discriminate.
+Qed.
+
+(* the hypotheses are satisfiable by non-trivial instances; two boundary computations *)
+Example value_ex_hyp : addr_size 2 /\ wf_value (mkV TGeneric 18446744073709551615) = true /\ count_ok 2 (mkV TGeneric 65535)
+  /\ count_ok 2 (mkV TI8 255).
+Proof. repeat split; try (right; left; reflexivity); try reflexivity; intros; try discriminate; vm_compute; reflexivity. Qed.
+Example value_ex_shra :   (* 2-byte target: 0x8000 shra 20 = -1 (all ones in the 64-bit container), canonically 0xffff *)
+  cres 2 (vshra (mkV TGeneric 32768) (mkV TGeneric 20) (amask 2)) = Ok (mkV TGeneric 65535).
+Proof. vm_compute. reflexivity. Qed.
+Example value_ex_div_min :   (* i8: -128 / -1 wraps to -128 *)
+  vdiv no_fops (mkV TI8 128) (mkV TI8 255) (amask 4) = Ok (mkV TI8 128).
+Proof. vm_compute. reflexivity. Qed.
+
+Check decode_table : forall (dbg : bool) (e : enc) (opc : byte) (bs : list byte),
+  parse_op dbg e (opc :: bs) = generic_decode dbg e opc bs.
+Check decode_no_panic : forall (dbg : bool) (e : enc) (bs : list byte),
+  parse_op dbg e bs <> Panic /\ parse_op dbg e bs <> OutOfFuel.
